@@ -1,4 +1,5 @@
 // C03: evolution by a diagonal operator: exact conjugation, group law, two-step form.
+#define VF_EARLY
 #include "bind.hpp"
 using namespace vf;
 
@@ -115,6 +116,7 @@ int main(int argc, char** argv) {
       for (double t : {0.3, -2.5, 1.0, 9e-1, 7.0}) check_case(d, E, t / S, al, false);
     }
   }
+  check_early({3});
   finish();
   return 0;
 }
